@@ -121,11 +121,17 @@ class EthAddr (_AddrBase):
         else:
           # Assume it's hex digits but they may not all be in two-digit
           # groupings (e.g., xx:x:x:xx:x:x). This actually comes up.
+          if any(len(x) > 2 or x.strip(b'0123456789abcdefABCDEF')
+                 for x in addr.split(b":")):
+            raise RuntimeError("Bad format for ethernet address")
           groups = [int(x,16) for x in addr.split(b":")]
           if any(x < 0 or x > 0xff for x in groups):
             raise RuntimeError("Bad format for ethernet address")
           addr = b''.join([b"%02x" % (x,) for x in groups])
         # We should now have 12 hex digits (xxxxxxxxxxxx).
+        # (And nothing else: int() would take signs, blanks and '_'.)
+        if len(addr) != 12 or addr.strip(b'0123456789abcdefABCDEF'):
+          raise RuntimeError("Bad format for ethernet address")
         # Convert to 6 raw bytes.
         addr = bytes(int(addr[x*2:x*2+2], 16) for x in range(0,6))
       else:
@@ -531,6 +537,9 @@ class IPAddr6 (_AddrBase):
             #  raise RuntimeError("Bad address format " + str(addr))
           side = 1
           continue
+        if len(s) > 4 or s.strip('0123456789abcdefABCDEF'):
+          # One to four hex digits (int() would take signs, blanks, '_')
+          raise RuntimeError("Bad address format " + str(addr))
         s = int(s,16)
         if s < 0 or s > 0xffff:
           # Each chunk must be at most 16 bits!
